@@ -138,6 +138,11 @@ class LaneEval:
                     return ('addr', 'src', 0)
                 if self._is_elem(f, b, self.dst_name) and f is self.f_top:
                     return ('addr', 'dst', 0)
+                if n.get('arrow'):
+                    # cursor->bytes : pointer iteration over the elements (the cursor stands at the current element)
+                    bv = self.ev(f, K[0], env, depth)
+                    if isinstance(bv, tuple) and bv[0] == 'addr':
+                        return bv
             return None
         if k == 'UnaryOperator':
             op = n['op']
@@ -352,6 +357,13 @@ class LaneEval:
         if k == 'UnaryOperator' and l['op'] == '*':
             bv = self.ev(f, l['kids'][0], env, depth)
             if isinstance(bv, tuple) and bv[0] == 'addr':
+                pb = f.unwrap(f.N[l['kids'][0]])
+                if pb['k'] == 'DeclRefExpr' and pb['n'] == self.dst_name and f is self.f_top and bv[1] == 'dst' and bv[2] == 0:
+                    # *dest = v with dest walking over the elements: the typed store of one destination element
+                    self.dest_typed = l.get('sz', 1)
+                    if isinstance(val, tuple) and val[0] == 'float':
+                        self.dest_float = True
+                        val = None
                 self._store(bv[1], bv[2], l.get('sz', 1), val)
                 return
         self.problems.append('unmodelled store to %s' % f.s(l))
@@ -374,7 +386,9 @@ class LaneEval:
                     env[d['n']] = v
             return
         if k in ('ForStmt', 'WhileStmt', 'DoStmt'):
-            # one symbolic iteration
+            # one symbolic iteration (after the for-initialiser, which may set up a cursor)
+            if k == 'ForStmt' and n.get('init') is not None and n.get('init', -1) >= 0:
+                self._stmt(f, f.N[n['init']], env, depth, ret)
             self._stmt(f, f.N[n['body']], env, depth, ret)
             return
         if k == 'IfStmt':
@@ -434,6 +448,11 @@ class LaneEval:
         self.f_top = self.f
         self.dest_float = False
         env = {}
+        # the two array parameters are also cursors: `*src`, `src->bytes`, `*dest = ...`, `p = (unsigned char *) dest` address the current element
+        if self.src_name:
+            env[self.src_name] = ('addr', 'src', 0)
+        if self.dst_name:
+            env[self.dst_name] = ('addr', 'dst', 0)
         self._stmt(self.f, self.f.N[self.f.body], env, 0, [None])
         return self.dest
 
